@@ -87,6 +87,9 @@ def render(name, expr_text, arg_names, defaults, first_args=("x",), y_scale=None
     """source text of a python function def"""
     func_name = func_name or name
     sig = list(first_args) + [f"{a}={defaults[a]!r}" for a in arg_names]
+    import re
+
+    expr_text = re.sub(r"(?<![\w.])(exp|sin|cos|sqrt|log)\(", r"np.\1(", expr_text)  # kafe2's YAML reader re-executes sources with only np/scipy in scope
     body = expr_text if y_scale is None else f"{y_scale!r} * ({expr_text})"
     return f"def {func_name}({', '.join(sig)}):\n    return {body}\n"
 
